@@ -1,0 +1,19 @@
+//go:build verif
+
+package autonatv2
+
+// Aliases of the package's own unexported (test-only) options, for the /verif runtime monitor of
+// property C16. Nothing here changes behaviour; without the `verif` build tag the file is not compiled.
+var (
+	// VerifWithDataRequestPolicy is withDataRequestPolicy.
+	VerifWithDataRequestPolicy = withDataRequestPolicy
+	// VerifWithAmplificationAttackPreventionDialWait is withAmplificationAttackPreventionDialWait.
+	VerifWithAmplificationAttackPreventionDialWait = withAmplificationAttackPreventionDialWait
+)
+
+// Constants of the server the monitor reports next to its observations (never used by its oracle).
+const (
+	VerifMaxMsgSize       = maxMsgSize
+	VerifStreamTimeout    = streamTimeout
+	VerifMaxPeerAddresses = maxPeerAddresses
+)
